@@ -956,6 +956,10 @@ class Engine:
             return [(p, p.env[e.id])]
         if e.id in self.consts:
             return [(p, self.consts[e.id])]
+        f = self.funcs.get(self.cur_func)
+        mc = getattr(f, "module_consts", None) if f is not None else None
+        if mc and e.id in mc:
+            return self.ev(mc[e.id], p)
         if e.id in ("True", "False"):
             return [(p, PyB(e.id == "True"))]
         if e.id in self.handlers or e.id in self.funcs:
@@ -1276,6 +1280,10 @@ class Engine:
             raise Unsupported("pointer arithmetic")
         if isinstance(a, Custom) and hasattr(a.h, "binop"):
             return a.h.binop(self, p, op, b, node)
+        if isinstance(a, Str) and isinstance(op, ast.Mod) and "str%" in self.handlers:
+            r = self.handlers["str%"](self, p, a, b, node)
+            if r is not None:
+                return r
         ca = isinstance(a, CI) or (isinstance(a, (PyI, PyB)) and getattr(a, "lit", False))
         cb = isinstance(b, CI) or (isinstance(b, (PyI, PyB)) and getattr(b, "lit", False))
         if (isinstance(a, CI) or isinstance(b, CI)) and (ca or isinstance(a, PyB)) and (cb or isinstance(b, PyB)):
@@ -1735,6 +1743,26 @@ class Engine:
     e_GeneratorExp = e_ListComp
     e_SetComp = e_ListComp
 
+    def e_DictComp(self, e, p):
+        if len(e.generators) != 1:
+            raise Unsupported("dict comprehension with several generators")
+        g = e.generators[0]
+        out = []
+        for q, coll in self.ev(g.iter, p):
+            if not (isinstance(coll, Custom) and hasattr(coll.h, "arbitrary")):
+                out.append((q, Opaque(("dictcomp", next(self.counter)))))
+                continue
+            item = coll.h.arbitrary(self, q)
+            for r in self.assign(g.target, item, q):
+                rs = [(r, [])]
+                for c in g.ifs:
+                    rs = [(r3, cs + [cz]) for r2, cs in rs for r3, cz in self.cond(c, r2)]
+                for r2, cs in rs:
+                    for r3, k in self.ev(e.key, r2):
+                        for r4, v in self.ev(e.value, r3):
+                            out.append((r4, Custom(AbstractDict(k, v, z3.And(*cs) if cs else z3.BoolVal(True), coll))))
+        return out
+
     def e_Dict(self, e, p):
         if not e.keys:
             return [(p, Opaque(("dict", next(self.counter))))]
@@ -1762,7 +1790,56 @@ class AbstractComp:
         self.elt, self.guard, self.coll = elt, guard, coll
 
     def truth(self, eng, p):
+        return self.nonempty(eng, p)
+
+    def nonempty(self, eng, p):
+        # an unfiltered comprehension is non-empty iff the collection it ranges over is
+        if z3.is_true(z3.simplify(self.guard)) and hasattr(self.coll, "h") and hasattr(self.coll.h, "nonempty"):
+            return self.coll.h.nonempty(eng, p)
         return eng.fresh("nonempty", z3.BoolSort())
+
+    def arbitrary(self, eng, p):
+        p.pc.append(self.guard)
+        return self.elt
+
+    def enumerate(self, eng, p):
+        return Custom(AbstractComp(Tup([PyI(eng.fresh_int("enum_i")), self.elt]), self.guard, self.coll))
+
+    def iterate_abstract(self):
+        return True
+
+    def len(self, eng, p):
+        if hasattr(self.coll, "h") and hasattr(self.coll.h, "len"):
+            return self.coll.h.len(eng, p)
+        n = eng.fresh_int("len")
+        p.pc.append(n >= 0)
+        return PyI(n)
+
+
+class AbstractDict:
+    """{k: v for x in <abstract collection>}: key and value for one arbitrary member"""
+
+    def __init__(self, key, val, guard, coll):
+        self.key, self.val, self.guard, self.coll = key, val, guard, coll
+
+    def truth(self, eng, p):
+        if z3.is_true(z3.simplify(self.guard)) and hasattr(self.coll, "h") and hasattr(self.coll.h, "nonempty"):
+            return self.coll.h.nonempty(eng, p)
+        return eng.fresh("nonempty", z3.BoolSort())
+
+    def len(self, eng, p):
+        # number of distinct keys: between (non-empty ? 1 : 0) and the number of members
+        n = eng.fresh_int("len_dict")
+        p.pc.append(n >= 0)
+        if hasattr(self.coll, "h") and hasattr(self.coll.h, "len"):
+            m = self.coll.h.len(eng, p)
+            p.pc.append(n <= eng.as_int(m))
+            p.pc.append(z3.Implies(eng.as_int(m) > 0, n >= 1) if z3.is_true(z3.simplify(self.guard)) else z3.BoolVal(True))
+        return PyI(n)
+
+    def arbitrary(self, eng, p):      # iterating a dict yields keys
+        p.pc.append(self.guard)
+        return self.key
 
 
 def _as_load(t):
@@ -1815,6 +1892,8 @@ def _b_isinstance(eng, p, args, kw, node):
         return [(p, p.opq[key])]
     if isinstance(v, (Opt, NoneV)):
         return [(p, PyB(False))] if isinstance(v, NoneV) else [(p, PyB(False))]
+    if isinstance(v, (Custom, Ref, BytesV)):
+        return [(p, PyB(False))]        # a proof-script object is none of the builtin / pandas types tested for
     raise Unsupported("isinstance of " + type(v).__name__)
 
 
@@ -1824,6 +1903,8 @@ def _b_print(eng, p, args, kw, node):
 
 def _b_int(eng, p, args, kw, node):
     v = args[0]
+    if isinstance(v, Custom) and hasattr(v.h, "to_int"):
+        return [(p, v.h.to_int(eng, p))]
     if isinstance(v, (PyI, CI, PyB)):
         return [(p, PyI(eng.as_int(v)))]
     if isinstance(v, Opaque):
@@ -1832,6 +1913,17 @@ def _b_int(eng, p, args, kw, node):
 
 
 def _b_max(eng, p, args, kw, node):
+    if len(args) == 1 and isinstance(args[0], Custom) and isinstance(args[0].h, (AbstractDict, AbstractComp)):
+        h = args[0].h
+        elt = h.key if isinstance(h, AbstractDict) else h.elt
+        if isinstance(elt, (PyI, CI)):
+            # max over an abstract collection of ints: M with  member <= M  (instantiated at the arbitrary member)
+            m = eng.fresh_int("max")
+            p.axioms.append(z3.Implies(h.guard, eng.as_int(elt) <= m))
+            return [(p, PyI(m))]
+        if isinstance(elt, Custom) and hasattr(elt.h, "max_of_collection"):
+            return [(p, elt.h.max_of_collection(eng, p))]
+        raise Unsupported("max over abstract collection of " + type(elt).__name__)
     if len(args) == 2:
         a, b = eng.as_int(args[0]), eng.as_int(args[1])
         return [(p, PyI(z3.If(a >= b, a, b)))]
@@ -1843,6 +1935,41 @@ def _b_min(eng, p, args, kw, node):
         a, b = eng.as_int(args[0]), eng.as_int(args[1])
         return [(p, PyI(z3.If(a <= b, a, b)))]
     raise Unsupported("min")
+
+
+def _func_name(v):
+    if isinstance(v, Opaque):
+        t = v.tag
+        if isinstance(t, str) and t.startswith("func:"):
+            return t[5:]
+        if isinstance(t, tuple) and len(t) == 2 and isinstance(t[0], str) and t[0].startswith("global:"):
+            return t[0][7:] + "." + str(t[1])
+    return None
+
+
+def _b_map(eng, p, args, kw, node):
+    fn, coll = args[0], args[1]
+    name = _func_name(fn)
+    if name and isinstance(coll, Custom) and hasattr(coll.h, "arbitrary"):
+        h = eng.handlers.get(name) or eng.handlers.get("." + name.split(".")[-1])
+        if h is not None:
+            item = coll.h.arbitrary(eng, p)
+            out = []
+            for q, v in h(eng, p, [item], {}, node):
+                out.append((q, Custom(AbstractComp(v, z3.BoolVal(True), coll))))
+            return out
+    if isinstance(coll, (Opaque, Custom)):
+        return [(p, Opaque(("map", next(eng.counter))))]
+    raise Unsupported("map")
+
+
+def _b_reversed(eng, p, args, kw, node):
+    v = args[0]
+    if isinstance(v, Tup):
+        return [(p, Tup(list(reversed(v.items)), True))]
+    if isinstance(v, Custom) and isinstance(v.h, AbstractComp):
+        return [(p, v)]          # the member set is what matters; positions are re-drawn by enumerate
+    raise Unsupported("reversed of " + type(v).__name__)
 
 
 def _b_list(eng, p, args, kw, node):
@@ -1891,11 +2018,12 @@ def _b_enumerate(eng, p, args, kw, node):
     if isinstance(v, Tup):
         return [(p, Tup([Tup([PyI(i), x]) for i, x in enumerate(v.items)], True))]
     if isinstance(v, Custom) and hasattr(v.h, "enumerate"):
-        return [(p, v.h.enumerate(eng, p))]
+        r = v.h.enumerate(eng, p)
+        return [(p, r)]
     if isinstance(v, (Custom, Opaque)):
         return [(p, Opaque(("enumerate", next(eng.counter))))]
     raise Unsupported("enumerate of " + type(v).__name__)
 
 
-BUILTINS = {"any": _b_any, "all": _b_all, "enumerate": _b_enumerate, "len": _b_len, "isinstance": _b_isinstance, "print": _b_print, "int": _b_int,
+BUILTINS = {"map": _b_map, "reversed": _b_reversed, "any": _b_any, "all": _b_all, "enumerate": _b_enumerate, "len": _b_len, "isinstance": _b_isinstance, "print": _b_print, "int": _b_int,
             "max": _b_max, "min": _b_min, "list": _b_list}
